@@ -255,7 +255,7 @@ impl<E: Elem> Iterator for ScriptedIter<E> {
 
 pub struct Interp<E: Elem> {
     pub pool: HashMap<usize, Val<E>>,
-    pub bag: HashMap<i64, E>,
+    pub bag: Vec<(i64, E)>,
     pub nexth: usize,
 }
 
@@ -274,7 +274,7 @@ fn jsarr(j: &J, k: &str) -> Vec<String> {
 
 impl<E: Elem> Interp<E> {
     pub fn new() -> Self {
-        Interp { pool: HashMap::new(), bag: HashMap::new(), nexth: 1 }
+        Interp { pool: HashMap::new(), bag: Vec::new(), nexth: 1 }
     }
 
     fn newh(&mut self) -> usize {
@@ -311,7 +311,7 @@ impl<E: Elem> Interp<E> {
         for h in hs {
             self.release(h);
         }
-        let mut es: Vec<i64> = self.bag.keys().copied().collect();
+        let mut es: Vec<i64> = self.bag.iter().map(|x| x.0).collect();
         es.sort();
         for e in es {
             self.release_elem(e);
@@ -328,9 +328,15 @@ impl<E: Elem> Interp<E> {
         }
     }
 
+    fn unbag(&mut self, id: i64) -> Option<E> {
+        let id = if E::ETY == "zst" { 0 } else { id };
+        let p = self.bag.iter().position(|x| x.0 == id)?;
+        Some(self.bag.remove(p).1)
+    }
+
     fn release_elem(&mut self, id: i64) {
-        if let Some(e) = self.bag.remove(&id) {
-            ev!("\"ev\":\"release_elem\",\"id\":{}", id);
+        if let Some(e) = self.unbag(id) {
+            ev!("\"ev\":\"release_elem\",\"id\":{}", e.id());
             let _ = catch_unwind(AssertUnwindSafe(move || drop(e)));
         }
     }
@@ -363,14 +369,21 @@ impl<E: Elem> Interp<E> {
             "mk_elem" => {
                 let e = E::fresh();
                 ev!("\"ev\":\"mk_elem\",\"id\":{}", e.id());
-                self.bag.insert(e.id(), e);
+                self.bag.push((e.id(), e));
             }
             "release" => {
                 let h = ju(st, "h").unwrap() as usize;
                 self.release(h);
             }
             "release_elem" => {
-                let id = ju(st, "id").unwrap();
+                let id = match ju(st, "id") {
+                    Some(id) => id,
+                    None => {
+                        let mut have: Vec<i64> = self.bag.iter().map(|x| x.0).collect();
+                        have.sort();
+                        have[ju(st, "pick").unwrap_or(0) as usize]
+                    }
+                };
                 self.release_elem(id);
             }
             _ => self.call(&op, st),
@@ -385,7 +398,15 @@ impl<E: Elem> Interp<E> {
         }
         let byval: Vec<bool> = forms.iter().map(|f| f == "own").collect();
         let arg = ju(st, "arg").unwrap_or(-1);
-        let elem_ids = jarr(st, "elems");
+        let mut elem_ids: Vec<i64> = jarr(st, "elems").into_iter().map(|x| if E::ETY == "zst" { 0 } else { x }).collect();
+        if let Some(p) = ju(st, "pick") {
+            // the p-th smallest element the caller holds
+            if p >= 0 {
+                let mut have: Vec<i64> = self.bag.iter().map(|x| x.0).collect();
+                have.sort();
+                elem_ids = vec![*have.get(p as usize).unwrap_or_else(|| panic!("HARNESS: pick {}", p))];
+            }
+        }
         let panic_at = ju(st, "panic_at").unwrap_or(-1);
         let pass_mod = ju(st, "pass_mod").unwrap_or(-1);
         let okind = {
@@ -395,7 +416,7 @@ impl<E: Elem> Interp<E> {
         .to_string();
         // take the operands out of the pool for the duration of the call
         let mut vals: Vec<Val<E>> = recv.iter().map(|h| self.pool.remove(h).unwrap_or_else(|| panic!("HARNESS: no value {}", h))).collect();
-        let elems: Vec<E> = elem_ids.iter().map(|id| self.bag.remove(id).unwrap_or_else(|| panic!("HARNESS: no elem {}", id))).collect();
+        let elems: Vec<E> = elem_ids.iter().map(|id| self.unbag(*id).unwrap_or_else(|| panic!("HARNESS: no elem {}", id))).collect();
         let n = match ju(st, "n") {
             Some(n) => n,
             None => vals.first().map(|v| describe(v).items.len() as i64).unwrap_or(0),
@@ -460,7 +481,7 @@ impl<E: Elem> Interp<E> {
                 outs.push(']');
                 let vids: Vec<i64> = o.vals.iter().map(|e| e.id()).collect();
                 for e in o.vals {
-                    self.bag.insert(e.id(), e);
+                    self.bag.push((e.id(), e));
                 }
                 ev!(
                     "\"ev\":\"ret\",\"outs\":{},\"vals\":{},\"obs\":{},\"res\":{},\"err\":{},\"dbg\":{},\"dbgref\":{}",
